@@ -47,6 +47,8 @@ def predicate(spec, out):
     elif abs(out["ll"] - ll_cf) > 1e-7 * max(1.0, abs(ll_cf)):
         errs.append(f"marginal_ln_likelihood = {out['ll']!r} but ln N(y | M mu, C + s^2 I + M Lambda M^T) = {ll_cf!r} "
                     f"(s={spec['theta']['s']}, K prior {spec['kprior']}, offsets {spec['n_off']}, poly_trend {spec['n_poly']}, P prior in {spec['P_unit']}, P0 {spec['P0']})")
+    if "t0_impl" in out and abs(out["t0_impl"] - out["t0"]) > 1e-8:
+        errs.append(f"the kernel counts time from {out['t0_impl']!r} but the data's reference epoch is {out['t0']!r} (TCB MJD; given on scale {spec.get('t_ref_scale', 'tcb')})")
     for v in out.get("ll_in_batch", ()):
         if not (v == out["ll"] or (math.isnan(v) and math.isnan(out["ll"]))):
             errs.append(f"marginal_ln_likelihood of the same sample is {out['ll']!r} alone but {v!r} as the last row of a batch (in memory: earlier rows with other jitter / a capped K variance; cache file: five rows in 2 and in 3 batches) "
